@@ -316,6 +316,22 @@ Definition dns64_cap (b : option Z) (now ttl : Z) : Z :=
 Definition dns64_ttl (neg : option (piece * Z)) (addrs : list piece) (consulted : list piece) (now : Z) : Z :=
   dns64_cap (dns64_bound None consulted) now (dns64_rfc_ttl neg addrs now).
 
+(* The replies dns64 RELAYS instead of synthesising (session 4).
+   buildAResponseAsBasis (RFC 6147 5.1.6: the A sub-answer has no address, so its
+   alias chain, authority and additional sections become the reply to the AAAA
+   question) and handlePTR (5.3.1: a CNAME derived from configuration with the
+   constant ptrSynthTTL, then the PTR records of the in-addr.arpa sub-answer)
+   copy the RR values of the sub-answer: every relayed record keeps the TTL the
+   answer it sits in showed (a cache hit: shown_ttl of that entry; fresh: the
+   upstream TTL).  [recs] lists, per relayed record in reply order, the piece it
+   was copied from.  The AAAA answer that gated an A-basis reply contributes no
+   record; like every consulted piece it folds into the request tree's bound. *)
+Definition dns64_relay_ttls (recs : list piece) (now : Z) : list Z :=
+  map (fun p => piece_ttl p now) recs.
+Definition dns64_basis_reply (recs : list piece) (now : Z) : list Z := dns64_relay_ttls recs now.
+Definition dns64_ptr_reply (recs : list piece) (now : Z) : list Z :=
+  dns64_ptr_synth_ttl :: dns64_relay_ttls recs now.
+
 (* ------------------------------------------------------------------ *)
 (** * 5. The store: set / remove / pointer-CAS                          *)
 
